@@ -12,7 +12,7 @@
 (* the pending tail is always a proper prefix of a well-formed sequence.       *)
 EXTENDS Utf8, Json, TLC
 
-CONSTANTS EmitVectors
+CONSTANTS EmitVectors, RepTailsOnly      \* RepTailsOnly: quick variant - only the representative tails (the sweep of all 256 bytes on the code)
 
 VARIABLES pend, b
 vars == <<pend, b>>
@@ -45,7 +45,7 @@ StepShape(q, x) ==
            ELSE [i \in 1..Len(d.out) |-> IF d.out[i] = REPL THEN "R" ELSE "C"],
    pend |-> RepSeq(d.pend)]
 
-Init == pend \in Tails /\ b \in 0..255
+Init == pend \in (IF RepTailsOnly THEN { q \in Tails : q = RepSeq(q) } ELSE Tails) /\ b \in 0..255
 Next == UNCHANGED vars
 Spec == Init /\ [][Next]_vars
 
